@@ -21,14 +21,14 @@ instance {ε α : Type} [DecidableEq ε] [DecidableEq α] : DecidableEq (Except 
 /-- **decode_total.**  For every raw value (any field missing, any length, any proof index /
     size / path) each `try_from_raw` of the proof-carrying messages returns `Ok` or `Err`: the
     glue never reaches a panicking operation, for every hash function. -/
-theorem C17_decode_total (Hs : Hashes) (eciOk : Bytes → EciCheck) :
+theorem C17_decode_total (Hs : Hashes) (eciOk : Bytes → EciCheck) (fix : Bool) :
     (∀ r : RawProof, ∃ v, decodeProof r = .value v) ∧
-    (∀ r : BlockRaw, ∃ v, fullFromRaw (flatCtx Hs eciOk) r = .value v) ∧
-    (∀ r : FilteredRaw, ∃ v, filteredFromRaw (flatCtx Hs eciOk) r = .value v) ∧
-    (∀ r : MetaRaw, ∃ v, metaFromRaw (flatCtx Hs eciOk) r = .value v) ∧
+    (∀ r : BlockRaw, ∃ v, fullFromRaw (flatCtx Hs eciOk fix) r = .value v) ∧
+    (∀ r : FilteredRaw, ∃ v, filteredFromRaw (flatCtx Hs eciOk fix) r = .value v) ∧
+    (∀ r : MetaRaw, ∃ v, metaFromRaw (flatCtx Hs eciOk fix) r = .value v) ∧
     (∀ r : BlobRaw, ∃ v, blobFromRaw r = .value v) :=
-  ⟨decodeProof_total, fullFromRaw_total Hs eciOk, filteredFromRaw_total Hs eciOk,
-   metaFromRaw_total Hs eciOk, blobFromRaw_total⟩
+  ⟨decodeProof_total, fullFromRaw_total Hs eciOk fix, filteredFromRaw_total Hs eciOk fix,
+   metaFromRaw_total Hs eciOk fix, blobFromRaw_total⟩
 
 /-- **accepted_consistent.**  A filtered block, a metadata value accepted by `try_from_raw`
     satisfies the type's stated checks: the rollup-transactions root and the list of rollup ids
@@ -45,6 +45,13 @@ theorem C17_accepted_consistent (c : Ctx) :
 theorem C17_accepted_consistent_full_partial (c : Ctx) (r : BlockRaw) (b : Block)
     (h : fullFromRaw c r = .value (.ok b)) : FullAccepted c b := fullFromRaw_accepted c r b h
 
+/-- With `/verif/proposed_fixes/FB1.diff` (model switch `fullChecksRts`) the full block is
+    consistent too: every per-rollup proof of an accepted block verifies against its root. -/
+theorem C17_accepted_consistent_full_fixed (c : Ctx) (hfix : c.fullChecksRts = true) (r : BlockRaw) (b : Block)
+    (h : fullFromRaw c r = .value (.ok b)) :
+    ∀ x ∈ b.rollups, rtMatchesRoot c x.id x.txs x.proof b.header.txsRoot = .value true :=
+  fullFromRaw_rts_verified c hfix r b h
+
 /-- The example block of C07 with the proof of its first rollup replaced by a different path of
     the right length: accepted by the full-block receiver, although that proof does not verify
     against the rollup-transactions root (and the filtered-block receiver rejects the same entry). -/
@@ -58,6 +65,7 @@ def fullBlockUncheckedProof : Bool :=
       let b' : Block := { b with rollups := bad :: rest }
       let c := flatCtx toyHs (fun _ => .ok)
       fullFromRaw c b'.toRaw == .value (.ok b') &&
+      fullFromRaw (flatCtx toyHs (fun _ => .ok) true) b'.toRaw == .value (.error .txsNotInBlock) &&
       rtMatchesRoot c bad.id bad.txs bad.proof b'.header.txsRoot == .value false &&
       (match filteredFromRaw c (toFiltered b' [bad.id]).toRaw with
         | .value (.error (.txsForIdNotInBlock _)) => true
